@@ -226,8 +226,8 @@ def suites(tier, seed):
             "nontrivial": lambda c, o: any(e[0] == "excluded" for e in o["log"]),
             "histogram": rc.histogram, "shrink": rc.shrink_program,
             "bound": "%d seeded random tagged programs whose before_feature hook excludes (element.skip()) every feature / rule / scenario / "
-                     "outline / outline row carrying the tag x9: excluded elements are treated like de-selected ones; runs in which "
-                     "nothing was excluded also go through the Coq model" % len(xcases),
+                     "outline / outline row carrying the tag x9: excluded elements are treated like de-selected ones (oracle), "
+                     "and every run goes through the Coq model (Runner.v: c_excl / items_cfg / sel)" % len(xcases),
             "coq": rc.COQ}
     return [excl, {"name": "selection", "cases": cases, "impl": rc.impl_run, "oracle": oracle, "nontrivial": nontrivial,
              "histogram": rc.histogram, "shrink": rc.shrink_program,
